@@ -35,16 +35,39 @@ Proof.
   apply in_flat_map. exists x. split; [exact Hx|right; exact Hl].
 Qed.
 
+Lemma item_deep_line f (IH : forall t, (depth t <= f)%nat -> wf_b t = true -> exists l, In l (spell t) /\ (S (depth t) <= weight l)%nat) mk pad ts :
+  (S (fold_right (fun t m => Nat.max (depth t) m) 0%nat ts) <= S f)%nat ->
+  marker_okb mk && Nat.leb 1 pad && Nat.leb pad 4 && seq_ok_b ts && forallb wf_b ts && good_b (join_blank (map spell ts)) &&
+    negb (thematic_start (item_first_line mk pad (join_blank (map spell ts)))) = true ->
+  exists l, In l (item_lines mk pad (join_blank (map spell ts))) /\ (S (S (fold_right (fun t m => Nat.max (depth t) m) 0%nat ts)) <= weight l)%nat.
+Proof.
+  intros Hd Hw. repeat rewrite andb_true_iff in Hw. destruct Hw as [[[[[[Hmk Hp1] Hp4] Hs] Hall] Hg] Hth].
+  apply marker_ok_reflect in Hmk. apply Nat.leb_le in Hp1.
+  assert (Hne : ts <> []) by (destruct ts; [discriminate|discriminate]).
+  destruct (deepest_child ts Hne) as (t' & Hin & E).
+  rewrite forallb_forall in Hall.
+  destruct (IH t' (depth_children _ _ _ Hin Hd) (Hall t' Hin)) as (l & Hl & Wl).
+  assert (Hj : In l (join_blank (map spell ts))) by (eapply in_join_blank; [apply in_map; exact Hin|exact Hl]).
+  destruct (good_lines _ Hg) as (c0 & body0 & rest & El & _).
+  destruct (marker_first mk Hmk) as (m0 & mr & Em & _).
+  rewrite E, El in *. unfold item_lines. rewrite Em.
+  destruct Hj as [<-|Hj].
+  - eexists. split; [left; reflexivity|]. cbn [weight] in Wl |- *. rewrite !app_length, repeat_length. cbn [length]. lia.
+  - exists (embed_s (length (m0 :: mr) + pad) l). split; [right; apply in_map; exact Hj|].
+    destruct l as [|k c body]; cbn [weight] in Wl; [lia|]. cbn [embed_s weight length]. lia.
+Qed.
+
 Lemma deep_line : forall f t, (depth t <= f)%nat -> wf_b t = true -> exists l, In l (spell t) /\ (S (depth t) <= weight l)%nat.
 Proof.
-  induction f as [|f IH]; intros t Hd Hw.
-  - destruct t as [c body more|ch n content|ts|mk pad ts|lv hc hb|rc rn|e0 epre ech edbl ew epost]; [| |cbn [depth] in Hd; lia|cbn [depth] in Hd; lia| | |].
+  induction f as [|f IH].
+  - intros t Hd Hw.
+    destruct t as [c body more|ch n content|ts|mk pad ts|mk pad ts next|lv hc hb|rc rn|e0 epre ech edbl ew epost]; [| |cbn [depth] in Hd; lia|cbn [depth] in Hd; lia|cbn [depth] in Hd; lia| | |].
     + exists (SLine 0 c body). split; [left; reflexivity|cbn [depth weight]; lia].
     + exists (SLine 0 ch (repeat ch (n - 1))). split; [left; reflexivity|cbn [depth weight]; lia].
     + eexists. split; [left; reflexivity|cbn [depth weight]; lia].
     + eexists. split; [left; reflexivity|cbn [depth weight]; lia].
     + eexists. split; [left; reflexivity|cbn [depth weight]; lia].
-  - destruct t as [c body more|ch n content|ts|mk pad ts|lv hc hb|rc rn|e0 epre ech edbl ew epost].
+  - intros t. induction t as [c body more|ch n content|ts|mk pad ts|mk pad ts next IHn|lv hc hb|rc rn|e0 epre ech edbl ew epost]; intros Hd Hw.
     + exists (SLine 0 c body). split; [left; reflexivity|cbn [depth weight]; lia].
     + exists (SLine 0 ch (repeat ch (n - 1))). split; [left; reflexivity|cbn [depth weight]; lia].
     + cbn [wf_b] in Hw. repeat rewrite andb_true_iff in Hw. destruct Hw as [[Hs Hall] Hg].
@@ -56,20 +79,15 @@ Proof.
       * cbn [spell]. apply in_map. eapply in_join_blank; [apply in_map; exact Hin|exact Hl].
       * cbn [depth]. rewrite E. destruct l as [|k c body]; cbn [weight] in Wl; [lia|].
         cbn [quote_s weight length]. rewrite app_length, repeat_length. cbn [length]. lia.
-    + cbn [wf_b] in Hw. repeat rewrite andb_true_iff in Hw. destruct Hw as [[[[[[Hmk Hp1] Hp4] Hs] Hall] Hg] Hth].
-      apply marker_ok_reflect in Hmk. apply Nat.leb_le in Hp1.
-      assert (Hne : ts <> []) by (destruct ts; [discriminate|discriminate]).
-      destruct (deepest_child ts Hne) as (t' & Hin & E).
-      rewrite forallb_forall in Hall.
-      destruct (IH t' (depth_children _ _ _ Hin Hd) (Hall t' Hin)) as (l & Hl & Wl).
-      assert (Hj : In l (join_blank (map spell ts))) by (eapply in_join_blank; [apply in_map; exact Hin|exact Hl]).
-      destruct (good_lines _ Hg) as (c0 & body0 & rest & El & _).
-      destruct (marker_first mk Hmk) as (m0 & mr & Em & _).
-      cbn [spell depth]. rewrite E, El in *. unfold item_lines. rewrite Em.
-      destruct Hj as [<-|Hj].
-      * eexists. split; [left; reflexivity|]. cbn [weight] in Wl |- *. rewrite !app_length, repeat_length. cbn [length]. lia.
-      * exists (embed_s (length (m0 :: mr) + pad) l). split; [right; apply in_map; exact Hj|].
-        destruct l as [|k c body]; cbn [weight] in Wl; [lia|]. cbn [embed_s weight length]. lia.
+    + cbn [wf_b] in Hw. cbn [depth] in Hd. destruct (item_deep_line f IH mk pad ts Hd Hw) as (l & Hl & Wl).
+      exists l. split; [exact Hl|cbn [depth]; exact Wl].
+    + cbn [wf_b] in Hw. repeat rewrite andb_true_iff in Hw. destruct Hw as [[[Hw _] _] Hwn]. cbn [depth] in Hd |- *.
+      destruct (Nat.max_spec (S (fold_right (fun t m => Nat.max (depth t) m) 0%nat ts)) (depth next)) as [[Hlt ->]|[Hge ->]].
+      * destruct (IHn ltac:(lia) Hwn) as (l & Hl & Wl). exists l. split; [|exact Wl]. cbn [spell]. apply in_or_app. right. right. exact Hl.
+      * assert (Hw' : marker_okb mk && Nat.leb 1 pad && Nat.leb pad 4 && seq_ok_b ts && forallb wf_b ts && good_b (join_blank (map spell ts)) &&
+                      negb (thematic_start (item_first_line mk pad (join_blank (map spell ts)))) = true) by (repeat rewrite andb_true_iff; exact Hw).
+        destruct (item_deep_line f IH mk pad ts ltac:(lia) Hw') as (l & Hl & Wl).
+        exists l. split; [|exact Wl]. cbn [spell]. apply in_or_app. left. exact Hl.
     + eexists. split; [left; reflexivity|cbn [depth weight]; lia].
     + eexists. split; [left; reflexivity|cbn [depth weight]; lia].
     + eexists. split; [left; reflexivity|cbn [depth weight]; lia].
